@@ -52,7 +52,7 @@ pub fn judge_fds(rec: &StepRec, tolerate_global: &mut u32) -> Result<Vec<&'stati
     }
     // the library's own process-lifetime procfs root (ino 1 of a procfs)
     new.retain(|a| {
-        if a.procfs && a.ino == 1 && a.cloexec && *tolerate_global < 2 {
+        if a.procfs && a.ino == 1 && a.cloexec && *tolerate_global < 1 {
             *tolerate_global += 1;
             notes.push("global-procfs-handle-created");
             false
@@ -142,7 +142,7 @@ fn replay(_ctx: &Ctx, _check: &str, case: &Value) -> Result<(), Fail> {
 pub const PROP: Prop = Prop {
     id: "C11",
     level: "exploration",
-    rule: "generated tree x sequence of 1-8 library calls (every Root operation via Rust and C API incl. invalid and failing ones, Root::open, try_clone, resolve+reopen, procfs open/open_follow/readlink) x six kernel configurations, cold start (first-use initialisation happens inside a call); the supervisor thread lists the shared descriptor table (fd -> dev, ino, type, FD_CLOEXEC, F_GETFL, procfs?) when the call starts and when it has returned and dropped everything but its result. Oracle: after = before + at most the returned descriptor, which is close-on-exec; nothing closed, replaced or re-flagged; descriptors lent to the call still name the same object; the library's own process-lifetime procfs root (ino 1 of a procfs, close-on-exec) is tolerated once per mount fallback. The same judge also runs inside the C10 (faults) and C02/C03 (attacker) drivers. non-trivial = failing calls; distinct by (call, tree hash, kcfg)",
+    rule: "generated tree x sequence of 1-8 library calls (every Root operation via Rust and C API incl. invalid and failing ones, Root::open, try_clone, resolve+reopen, procfs open/open_follow/readlink) x six kernel configurations, cold start (first-use initialisation happens inside a call); the supervisor thread lists the shared descriptor table (fd -> dev, ino, type, FD_CLOEXEC, F_GETFL, procfs?) when the call starts and when it has returned and dropped everything but its result. Oracle: after = before + at most the returned descriptor, which is close-on-exec; nothing closed, replaced or re-flagged; descriptors lent to the call still name the same object; the library's own process-lifetime procfs root (ino 1 of a procfs, close-on-exec) is tolerated once per process (a second long-lived procfs root would be a leak). The same judge also runs inside the C10 (faults) and C02/C03 (attacker) drivers. non-trivial = failing calls; distinct by (call, tree hash, kcfg)",
     assumptions: &["descriptor numbers below 128 are audited (the child starts with about six descriptors)", "the audit happens at call boundaries; descriptors opened and closed inside a call are C05's business"],
     lanes: |_| 16,
     run_lane,
